@@ -71,10 +71,10 @@ func (m *Mutex) Unlock() {
 // RWMutex models sync.RWMutex including writer preference: a writer first
 // announces itself (blocking new readers), then waits for active readers.
 type RWMutex struct {
-	mu        sync.RWMutex
-	wHeld     bool // a writer owns the writer slot (announced or writing)
-	writing   bool
-	readers   int
+	mu      sync.RWMutex
+	wHeld   bool // a writer owns the writer slot (announced or writing)
+	writing bool
+	readers int
 }
 
 // RLock acquires a read lock.
